@@ -6,6 +6,7 @@ import (
 
 	sdk "github.com/pokt-network/pocket-core/types"
 	appsTypes "github.com/pokt-network/pocket-core/x/apps/types"
+	authTypes "github.com/pokt-network/pocket-core/x/auth/types"
 	"verifharness/internal/chain"
 	"verifharness/internal/gen"
 )
@@ -285,6 +286,7 @@ func (g *Gen) Core() [][]Case {
 		}
 		blocks = append(blocks, ps)
 		blocks = append(blocks, g.SignerNotInMsg())
+		blocks = append(blocks, g.ParamBlocks()...)
 	case "c16":
 		// one transaction of every outcome class, then the identical bytes again in the next block and
 		// in the block after: executed and indexed (code 0); rejected by the ante handler with an auth
@@ -488,4 +490,85 @@ func (g *Gen) ForeignAppStake() []Case {
 		}
 	}
 	return out
+}
+
+// ParamBlocks: the ACL owner changes an auth parameter in the MIDDLE of a block — the fee
+// multipliers (per type and default) up and back down, the memo limit, the signature limit — and the
+// same block goes on with transactions at the old fee / the new fee / a long memo / a 3-key multisig;
+// the next block repeats them.  Every tx must be judged by the parameters in the store at that
+// moment (the model reads them from the dumped pre-state of each tx).  The last change of each group
+// restores the genesis value, so the random stream that follows is unaffected.
+func (g *Gen) ParamBlocks() [][]Case {
+	ro := g.Ro
+	def := g.mult
+	feeParams := func(def int64, per map[string]int64) authTypes.FeeMultipliers {
+		fm := authTypes.FeeMultipliers{Default: def}
+		for _, k := range chain.SortedKeys(per) {
+			fm.FeeMultis = append(fm.FeeMultis, authTypes.FeeMultiplier{Key: k, Multiplier: per[k]})
+		}
+		return fm
+	}
+	origPer := map[string]int64{}
+	for k, v := range g.perType {
+		origPer[k] = v
+	}
+	raisedPer := map[string]int64{"send": 7}
+	for k, v := range origPer {
+		if k != "send" {
+			raisedPer[k] = v
+		}
+	}
+	send := func() sdk.ProtoMsg { return chain.MsgSend(ro.Rich[0].Addr, ro.Rich[1].Addr, 41) }
+	origSend, origDef := g.reqFor(send()), Fee*def
+	mk := func(name string, msg sdk.ProtoMsg, by Signer, fee int64, memo string) Case {
+		g.entropy++
+		c := Case{Kind: "core-param-" + name + "/owner/good/fee-explicit", Variant: "-",
+			Raw: Build(TxSpec{Msg: msg, Fee: sdk.Coins{sdk.Coin{Denom: "upokt", Amount: sdk.NewInt(fee)}}, Memo: memo, Entropy: g.entropy, SignChain: g.ChainID, By: by})}
+		g.Sent = append(g.Sent, c)
+		return c
+	}
+	rich0, owner := Single{ro.Rich[0]}, Single{ro.Owner}
+	unjail := func() sdk.ProtoMsg { return chain.MsgNodeUnjail(ro.Node.Addr, ro.Node.Addr) }
+	change := func(key string, val interface{}) sdk.ProtoMsg { return chain.MsgChangeParam(ro.Owner.Addr, key, val) }
+	m3 := ro.Multis[1] // 3 keys: recSignDepth counts 4
+	m3send := func() sdk.ProtoMsg { return chain.MsgSend(AddrOf(m3.Pub()), ro.Rich[1].Addr, 42) }
+	return [][]Case{
+		{ // raise the multipliers mid-block
+			mk("before-raise-send-oldfee", send(), rich0, origSend, ""),
+			mk("raise-feemultipliers", change("auth/FeeMultipliers", feeParams(def*2, raisedPer)), owner, origDef, ""),
+			mk("after-raise-send-oldfee", send(), rich0, origSend, ""),
+			mk("after-raise-send-newfee", send(), rich0, Fee*7, ""),
+			mk("after-raise-unjail-olddefault", unjail(), Single{ro.Node}, origDef, ""),
+			mk("after-raise-unjail-newdefault", unjail(), Single{ro.Node}, origDef*2, ""),
+		},
+		{ // the next block, still raised; then lower them again mid-block
+			mk("nextblock-send-oldfee", send(), rich0, origSend, ""),
+			mk("nextblock-send-newfee", send(), rich0, Fee*7, ""),
+			mk("restore-feemultipliers", change("auth/FeeMultipliers", feeParams(def, origPer)), owner, origDef*2, ""),
+			mk("after-restore-send-oldfee", send(), rich0, origSend, ""),
+			mk("after-restore-send-justbelow", send(), rich0, origSend-1, ""),
+		},
+		{ // memo limit lowered mid-block
+			mk("before-memo-send-memo20", send(), rich0, origSend, strings.Repeat("m", 20)),
+			mk("lower-maxmemo", change("auth/MaxMemoCharacters", uint64(10)), owner, origDef, ""),
+			mk("after-memo-send-memo20", send(), rich0, origSend, strings.Repeat("m", 20)),
+			mk("after-memo-send-memo10", send(), rich0, origSend, strings.Repeat("m", 10)),
+		},
+		{
+			mk("nextblock-send-memo20", send(), rich0, origSend, strings.Repeat("m", 20)),
+			mk("restore-maxmemo", change("auth/MaxMemoCharacters", uint64(256)), owner, origDef, ""),
+			mk("after-restore-send-memo20", send(), rich0, origSend, strings.Repeat("m", 20)),
+		},
+		{ // signature limit lowered mid-block: a 3-key multisig counts 4
+			mk("before-siglimit-multisig3", m3send(), m3, origSend, ""),
+			mk("lower-txsiglimit", change("auth/TxSigLimit", uint64(3)), owner, origDef, ""),
+			mk("after-siglimit-multisig3", m3send(), m3, origSend, ""),
+			mk("after-siglimit-multisig2", chain.MsgSend(AddrOf(ro.Multi.Pub()), ro.Rich[1].Addr, 43), ro.Multi, origSend, ""),
+		},
+		{
+			mk("nextblock-multisig3", m3send(), m3, origSend, ""),
+			mk("restore-txsiglimit", change("auth/TxSigLimit", uint64(7)), owner, origDef, ""),
+			mk("after-restore-multisig3", m3send(), m3, origSend, ""),
+		},
+	}
 }
